@@ -211,10 +211,16 @@ def advanceFuel (p : Params) (s : State) (t : Int) : Nat :=
 
 def advanceTo (p : Params) (s : State) (t : Int) : State := advance p (advanceFuel p s t) s t
 
-/-- tick on the ideal schedule until the clock has left its loop (after `stop`: at most a few ticks) -/
-def drain (p : Params) : Nat → State → State
+/-- after `stop`: the updater's next wake-ups, until it has left its loop.  StopTimeoutClock returned at
+    `tret`, so the real updater was gone by then: the wake-up is placed at `lastWrite + period` or at
+    `tret`, whichever is earlier (the phase of the real updater is not observable). -/
+def drain (p : Params) (tret : Int) : Nat → State → State
   | 0, s => s
-  | fuel + 1, s => if s.running then drain p fuel (tick s (s.lastWrite + p.period - s.now)) else s
+  | fuel + 1, s =>
+    if s.running then
+      let w := if s.lastWrite + p.period < tret then s.lastWrite + p.period else tret
+      drain p tret fuel (tick s (if w < s.now then 0 else w - s.now))
+    else s
 
 /-- the simulation keeps the identifiers of pending deadlines next to the state -/
 def simStep (p : Params) (sids : State × List Nat) : Api → (State × List Nat) × Obs
@@ -231,7 +237,7 @@ def simStep (p : Params) (sids : State × List Nat) : Api → (State × List Nat
       ((s', id :: sids.2), .make id true dl lo (lo + p.period) fresh)
   | .stop t tret =>
     let s := advanceTo p sids.1 t
-    let s' := drain p 64 (stop s)
+    let s' := drain p tret 64 (stop s)
     let s'' := if s'.now < tret then { s' with now := tret } else s'
     ((s'', []), .stop s'.now)
   | .probe t =>
